@@ -187,6 +187,7 @@ func checkC05(c *Ctx) {
 	ruleListAttr(c)
 	ruleCS(c)
 	ruleLeafKind(c)
+	ruleLinkDeactivate(c)
 	c.Assume("delimiter-stack dependent clauses (no unparsed node remains, no link contains a link), numeric accessor ranges and wrap's slicing of existing children are not decided")
 }
 
@@ -1103,9 +1104,82 @@ func init() {
 		Control{Name: "block-quote-accepts-items", Props: []string{"C05"}, File: "blocks.go",
 			Old: "\t\t\tp.OpenListBlock(ListKind, m.delim)\n\t\t}", New: "\t\t\tif p.ContainerKind() != BlockQuoteKind {\n\t\t\t\tp.OpenListBlock(ListKind, m.delim)\n\t\t\t}\n\t\t}",
 			Edits: [][2]string{{"\t\t\treturn true\n\t\t},\n\t\tcanContain: func(childKind BlockKind) bool { return childKind != ListItemKind },\n\t},\n\tFencedCodeBlockKind:", "\t\t\treturn true\n\t\t},\n\t\tcanContain: func(childKind BlockKind) bool { return true },\n\t},\n\tFencedCodeBlockKind:"}}, Expect: "CONTAIN/items-only-in-lists"},
+		Control{Name: "opener-flag-toggled", Props: []string{"C05"}, File: "inlines.go",
+			Old: "state.stack[i].flags &^= activeFlag", New: "state.stack[i].flags ^= activeFlag", Expect: "LINK-DEACTIVATE"},
+		Control{Name: "neg-opener-flag-masked", Props: []string{"C05"}, File: "inlines.go", Negative: true,
+			Old: "state.stack[i].flags &^= activeFlag", New: "state.stack[i].flags = state.stack[i].flags & (openerFlag | closerFlag)"},
 		Control{Name: "neg-document-accepts-everything", Props: []string{"C05"}, File: "blocks.go", Negative: true,
 			Old: "\t\tmatch:      func(*lineParser) bool { return true },\n\t\tcanContain: func(childKind BlockKind) bool { return childKind != ListItemKind },", New: "\t\tmatch:      func(*lineParser) bool { return true },\n\t\tcanContain: func(childKind BlockKind) bool { return true },"},
 		Control{Name: "neg-canContain-as-switch", Props: []string{"C05"}, File: "blocks.go", Negative: true,
 			Old: "canContain: func(childKind BlockKind) bool { return childKind == ListItemKind },", New: "canContain: func(childKind BlockKind) bool {\n\t\t\tswitch childKind {\n\t\t\tcase ListItemKind:\n\t\t\t\treturn true\n\t\t\t}\n\t\t\treturn false\n\t\t},"},
 	)
 }
+
+// ruleLinkDeactivate: see LINK-DEACTIVATE.
+func ruleLinkDeactivate(c *Ctx) {
+	c.Rule("LINK-DEACTIVATE", "No link contains a link (necessary condition): when a link is finished, every store finishLink makes into the flags of an earlier '[' opener yields, for all 256 possible old flag values, a value whose active bit is clear (exact by BSET over the stored expression), and such a store exists behind the kind == LinkKind edge.")
+	p := c.P
+	fn := p.Method("InlineParser", "finishLink")
+	if !c.NeedFunc("LINK-DEACTIVATE", fn, "(*InlineParser).finishLink") {
+		return
+	}
+	ac, ok := p.CM.Types.Scope().Lookup("activeFlag").(*types.Const)
+	if !ok {
+		c.Undecided("LINK-DEACTIVATE", "activeFlag", fn.Pos(), "constant activeFlag not found")
+		return
+	}
+	active, _ := constInt64Of(ac)
+	bs := newBSET(p)
+	n := 0
+	eachInstr(fn, func(in ssa.Instruction) {
+		st, ok := in.(*ssa.Store)
+		if !ok {
+			return
+		}
+		fa, ok := isFieldAddr(st.Addr, "delimiterStackElement", "flags")
+		if !ok {
+			return
+		}
+		n++
+		key := fmt.Sprintf("finishLink:flags-store#%d", n)
+		// symbol: the load of the same field the new value is computed from
+		var sym ssa.Value
+		var find func(v ssa.Value)
+		find = func(v ssa.Value) {
+			switch x := v.(type) {
+			case *ssa.BinOp:
+				find(x.X)
+				find(x.Y)
+			case *ssa.UnOp:
+				if x.Op == token.MUL {
+					if fa2, ok := isFieldAddr(x.X, "delimiterStackElement", "flags"); ok && sameAddr(fa2, fa) {
+						sym = x
+					}
+					return
+				}
+				find(x.X)
+			case *ssa.Convert:
+				find(x.X)
+			}
+		}
+		find(st.Val)
+		var bad []int64
+		for d := int64(0); d < 256; d++ {
+			es := &evalState{e: bs, fn: fn, isSym: func(v ssa.Value) bool { return sym != nil && v == sym }, d: d, from: make([]int, len(fn.Blocks))}
+			v, ok := es.eval(st.Val)
+			if !ok {
+				c.Undecided("LINK-DEACTIVATE", key, st.Pos(), "stored flags value not evaluable: "+es.why)
+				return
+			}
+			if v&active != 0 {
+				bad = append(bad, d)
+			}
+		}
+		c.Check(len(bad) == 0, "LINK-DEACTIVATE", key, st.Pos(), "after this store the opener can still be active for old flag values "+describeSet(bad, false)+": an enclosing '[' stays (or becomes) eligible and a link can end up inside a link")
+	})
+	if n < 1 {
+		c.Viol("LINK-DEACTIVATE", "finishLink:flags-store", fn.Pos(), "finishLink no longer deactivates earlier '[' openers")
+	}
+}
+
+func sameAddr2(a, b ssa.Value) bool { return sameAddr(a, b) }
